@@ -5,6 +5,8 @@ import Marwood.Lemmas.ContResumeToy
 import Marwood.Lemmas.ContResumeCompile
 import Marwood.Lemmas.ContResumeCap
 import Marwood.Lemmas.StackWFBpLive
+import Marwood.Lemmas.ContResumeMachine
+import Marwood.Proofs.C13
 /-!
 # C05 — first-class continuations: capture, invocation, re-entry
 
@@ -780,6 +782,88 @@ theorem invoke_run_same_result_concrete (ext : ExtOps) (ecl : ExtCodeLaws ext)
         ∃ r'', runN (gops ext) m (Resume s0 (t.stack.cellAt (t.stack.sp - 1)) t.heap) = .ok (r'', true) ∧
           r''.acc = r'.acc ∧ r''.heap = r'.heap :=
   invoke_run_same_result_verified (concreteLiveLaws ext ecl) h0sp h0cap hwt hr hop hk hsp htop hn hfit
+
+/-! ### on the REAL machine: `run_one` over `concreteOps ext`, no guard
+
+`Lemmas/ContResumeMachine.lean`: on a state satisfying the bundled invariant `VmOkP` (heap-simulation invariant `GoodI`,
+WF-stack over the value-typed verifier, and the two clauses `PInv` that make the callee guard a theorem) a successful
+instruction of the real machine is the same instruction of the guarded machine `vops ext` and conversely
+(`step_vops`, `step_vops_conv`); `LiveLaws` holds of the value-typed laws (`concreteLiveLawsV`); the invariants are
+properties of the live part of a state (`GoodI.of_liveEq`, `PInv.of_liveEq`, `WFS.of_liveEq`). So the second run —
+which starts from the CONSTRUCTED state `Resume s0 v t.heap`, not from a reachable one — is carried along the first
+in lock step (`runN_live_congruence_machine`). Hypotheses: the laws of the unmodelled parts, `GoodI` / WF-stack /
+`PInv` of the invoking state `t`, the shape of the invocation, the physical size bound along the run from `t`, and
+the capacity conditions (`hfit`, `FitOK`: the stack never shrinks). -/
+
+open Marwood.Lemmas.Good Marwood.Lemmas.Sim in
+/-- **The property's first sentence on the real concrete machine**: everything the machine does after `(k v)` — any
+    number `m` of further instructions of `run_one` over `concreteOps ext`, up to and including HALT — is, state by
+    state up to stale cells above `sp`, what it does from "the `call/cc` expression at `s0` has just returned `v`". -/
+theorem invoke_run_continues_machine (ext : ExtOps) (force : Bool) (el : ExtLaws ext) (eg : ExtGood ext)
+    (ecl : ExtCodeLawsV ext) (ep : ExtProc ext)
+    {s0 t t1 : St CHeap} {Kt : List FDesc} {op : Op} {n : Nat}
+    (h0sp : 2 ≤ s0.stack.sp) (h0cap : s0.stack.sp < s0.stack.cells.length)
+    (g : GoodI t) (hwt : WFS (concreteLawsV ext ecl) t Kt) (pt : PInv t)
+    (sb : SizeBounded (machine ext force) t)
+    (hr : readOpcode (concreteOps ext) t = .ok (op, t1)) (hop : op = .callAcc ∨ op = .tcallAcc)
+    (hk : callee t.heap t.acc = .continuation (capturedCont s0))
+    (hsp : 2 ≤ t.stack.sp) (htop : t.stack.cellAt t.stack.sp = .argc n) (hn : 1 ≤ n)
+    (hfit : s0.stack.sp - 2 + 1 ≤ t.stack.cells.length) :
+    ∃ r, step (concreteOps ext) t = .ok (r, false) ∧
+      ∀ (m : Nat) (r' : St CHeap) (bl : Bool),
+        FitOK (concreteOps ext) m r (Resume s0 (t.stack.cellAt (t.stack.sp - 1)) t.heap) →
+        runN (concreteOps ext) m r = .ok (r', bl) →
+        ∃ r'', runN (concreteOps ext) m (Resume s0 (t.stack.cellAt (t.stack.sp - 1)) t.heap) = .ok (r'', bl) ∧
+          LiveEq r' r'' := by
+  obtain ⟨r, hstep, hle, hrcap⟩ :=
+    invoke_continues_as_if_returned (concreteOps ext) h0sp h0cap hr hop hk hwt.wf.cap hsp htop hn hfit
+  have hv : VmOkP ext ecl t := ⟨⟨g, .inl ⟨Kt, hwt⟩⟩, pt⟩
+  have hreach : Reaches (machine ext force) t r := by
+    refine .next (.refl t) ?_
+    show vmStep (concreteOps ext) t = .next r
+    unfold vmStep; rw [hstep]
+  have hvr : VmOkP ext ecl r := vmOkP_step el eg ep hv (sb t (.refl t)) hstep (sb r hreach)
+  refine ⟨r, hstep, ?_⟩
+  intro m r' bl hf hrun
+  exact runN_live_congruence_machine force el eg ep sb m hreach hvr hle
+    (by show s0.stack.sp - 2 < s0.stack.cells.length; omega) hf hrun
+
+open Marwood.Lemmas.Good Marwood.Lemmas.Sim in
+/-- in particular: if the run of the real machine after `(k v)` halts with value `a` in heap `h`, so does its run from
+    "call/cc has just returned `v`" — same value, same heap -/
+theorem invoke_run_same_result_machine (ext : ExtOps) (force : Bool) (el : ExtLaws ext) (eg : ExtGood ext)
+    (ecl : ExtCodeLawsV ext) (ep : ExtProc ext)
+    {s0 t t1 : St CHeap} {Kt : List FDesc} {op : Op} {n : Nat}
+    (h0sp : 2 ≤ s0.stack.sp) (h0cap : s0.stack.sp < s0.stack.cells.length)
+    (g : GoodI t) (hwt : WFS (concreteLawsV ext ecl) t Kt) (pt : PInv t)
+    (sb : SizeBounded (machine ext force) t)
+    (hr : readOpcode (concreteOps ext) t = .ok (op, t1)) (hop : op = .callAcc ∨ op = .tcallAcc)
+    (hk : callee t.heap t.acc = .continuation (capturedCont s0))
+    (hsp : 2 ≤ t.stack.sp) (htop : t.stack.cellAt t.stack.sp = .argc n) (hn : 1 ≤ n)
+    (hfit : s0.stack.sp - 2 + 1 ≤ t.stack.cells.length) :
+    ∃ r, step (concreteOps ext) t = .ok (r, false) ∧
+      ∀ (m : Nat) (r' : St CHeap),
+        FitOK (concreteOps ext) m r (Resume s0 (t.stack.cellAt (t.stack.sp - 1)) t.heap) →
+        runN (concreteOps ext) m r = .ok (r', true) →
+        ∃ r'', runN (concreteOps ext) m (Resume s0 (t.stack.cellAt (t.stack.sp - 1)) t.heap) = .ok (r'', true) ∧
+          r''.acc = r'.acc ∧ r''.heap = r'.heap := by
+  obtain ⟨r, hstep, hall⟩ := invoke_run_continues_machine ext force el eg ecl ep h0sp h0cap g hwt pt sb hr hop hk hsp
+    htop hn hfit
+  refine ⟨r, hstep, ?_⟩
+  intro m r' hf hrun
+  obtain ⟨r'', h1, h2⟩ := hall m r' true hf hrun
+  exact ⟨r'', h1, h2.acc.symm, h2.heap.symm⟩
+
+open Marwood.Lemmas.Good Marwood.Lemmas.Good.Demo Marwood.Proofs.C13 in
+/-- non-vacuity of the run-level congruence on the real machine (every hypothesis discharged): the demo state of
+    `Lemmas/VmOkDemo.lean` and a copy of it with a larger capacity and a stale cell above `sp` — a state that is not
+    reachable — halt together, in live-equal states -/
+example : ∃ r2, runN (concreteOps failingExt) 1
+      { sHalt 0 with stack := { cells := [.undefined, .bool true], sp := 0 } } = .ok (r2, true) ∧
+    LiveEq (sHalt 1) r2 :=
+  runN_live_congruence_machine (ecl := failingExt_codeLawsV) false failingExt_laws failingExt_good failingExt_proc
+    (sHalt_sizeBounded _) 1 (.refl _) (sHalt_vmOkP _ _) ⟨rfl, rfl, rfl, rfl, rfl, rfl, rfl, rfl⟩ (by decide)
+    ⟨fun c hc => (by cases hc), fun _ _ _ _ => trivial⟩ rfl
 
 end Concrete
 
